@@ -1,17 +1,29 @@
 """C13 -- Lookups return exactly the matching rows in documented order.
 
-Model: coq/theories/Model/Lookup.v (hand-written, executable).  Tie to the code, re-run on every check:
-  A  table.make_sort_spec vs the model on an enumerated argument space
-  B  twowaymap.TwoWayMap (all 25 bin-kind pairs) vs the model on random op sequences, with failing strict
-     inserts and unhashable values; outcomes and both dictionaries are compared
+Model: coq/theories/Model/Lookup.v (executable).  Tie to the code, re-established on every check:
+
+  REGENERATED + PROVED.  harness/lk2v.py translates, from the sources of the tree being checked, into
+  coq/gen/Lookup_gen.v: table.make_sort_spec; twowaymap.py: the container functions (_set_* / _list_* / _LookupSet_*),
+  the bin classes (_SingleValueBin, _SingleValueStrictBin, _ContainerBin) with the registrations of _mapper_types /
+  register_container, TwoWayMap.insert (with its rollback) / remove / remove_left / remove_right / clear; lookup.py:
+  _make_row_key_map (bin kinds), get_mapped_keys, update_record and remove_row_id of SimpleLookupMapping and
+  ContainsLookupMapping, lookup_by_key, LookupMapColumn._do_fast_lookup / _do_lookup_with_sort /
+  _reset_sorted_versions.  Proofs/LookupGen_proofs.v proves every translated function equal to the model function the
+  C13 theorems speak about (Props/C13.v: C13_gen_*), so a semantic edit of these functions breaks a proof obligation.
+  The translated functions run over the primitives of Model/LookupRt.v (dict access, the sorted_versions dict of a
+  LookupSet, sorted(), set(), get_new_keys_iter).
+
+  DIFFERENTIAL (model AND translated functions against the running code, same cases, vm_compute):
+  A  table.make_sort_spec on an enumerated argument space
+  B  the bin objects of twowaymap._mapper_types, and twowaymap.TwoWayMap for all 25 bin-kind pairs, on random op
+     sequences with failing strict inserts and unhashable values; outcomes and dictionaries are compared
   C  lookup.SimpleLookupMapping / ContainsLookupMapping, LookupMapColumn._do_lookup_with_sort and
      _reset_sorted_versions, sort_key.make_sort_key: the REAL functions run on stub records/columns under
      arbitrary (also "wrong") op orders; every return value, every lookup result and the final index with
-     its sorted_versions are compared with the model
+     its sorted_versions are compared
   D  the real engine: documents with formula columns calling lookupRecords/lookupOne; the calls the engine
-     makes on every LookupMapColumn are recorded (wrapping, no source change) and replayed in the model,
-     every lookup result compared; the final formula cells are compared with the model's filter+sort
-     specification (spec_lookup) applied to the final table
+     makes on every LookupMapColumn are recorded (wrapping, no source change) and replayed, every lookup result
+     compared; the final formula cells are compared with the model's filter+sort specification (spec_lookup)
   search: naive filter + sort in Python over fetch_table vs the formula cells, after every bundle
   robustness stream (NaN / infinite / mutually incomparable sort values and NaN keys): only "no internal
   error" is required; it is reported, never compared with the model.
@@ -24,7 +36,7 @@ import math
 import os
 import traceback
 
-from harness import core
+from harness import core, lk2v
 
 ID = 'C13'
 TITLE = 'Lookups return exactly the matching rows in documented order'
@@ -37,31 +49,51 @@ RULE = ('A: enumerated make_sort_spec arguments. B: random TwoWayMap op sequence
         'shapes per document (CONTAINS, match_empty, order_by with "-", tuples, "id", None, sort_by, lookupOne), '
         'tables with and without manualSort; a formula cell counts as non-trivial when its lookup matched >= 1 '
         'and missed >= 1 row of the table. Distinct by hash of the canonical case.')
-TRUSTED = ['Model/Lookup.v is hand-written; it is compared on every run with the running code at four levels '
-           '(make_sort_spec, TwoWayMap, lookup mappings + sorted versions + SortKey on stubs, recorded engine traces)',
+TRUSTED = ['harness/lk2v.py (Python subset -> Gallina in a state+exception monad); validated on every run by evaluating the '
+           'translated functions and the running code on the same cases (levels A-D)',
+           'Model/LookupRt.v: meaning of the primitives the translated code calls (dict get/set/del/pop incl. CPython\'s '
+           'pop on an empty dict, in-place update of a stored container, LookupSet.sorted_versions access, sorted(), set()) '
+           'and the binding of the translation (a rec is (row id, cells of the lookup columns); relation bookkeeping calls '
+           'have no effect on the index)',
+           'hand-written and tied only differentially (levels C, D): ContainsLookupMapping.get_new_keys_iter '
+           '(new_keys_iter: key product with match_empty), sort_key.SortKey.__lt__ / make_sort_key (sortkey_lt, sort_values), '
+           'Python == / hash on values (val_eqb, hashable)',
            'column type conversion of lookup keys (col.convert) and rich cell values (get_cell_value) are taken from '
            'the implementation (kernel V), not modelled here',
            'CPython: dict/set semantics (hash consistent with ==), sorted() returns the sorted permutation, '
            'float.as_integer_ratio is exact']
 ASSUMPTIONS = ['sort values are mutually comparable (LookupSort_proofs.sortable: None, bool, int, finite float, str, alt '
                'text, objects ordered inside their class whose class name is not "str"/"AltText"; the fallback orders across '
-               'classes; tuples/lists/records as sort values are modelled and compared but outside the proved domain) and keys contain no NaN '
-               '(NaN is not representable in the model; such cases go to the robustness stream)',
+               'classes; tuples/lists/records as sort values are modelled and compared but outside the proved domain) and keys '
+               'contain no NaN (NaN is not representable in the model; such cases go to the robustness stream)',
                'lookup_refines_filter assumes the engine discipline stated as hypotheses: every written/removed row '
                'was update_record\'ed / unset before the lookup and _reset_sorted_versions ran for the spec '
-               '(checked on recorded engine traces by monitor D)']
-TECHNIQUE = ('Coq proofs over a hand-written executable model + differential correspondence at four levels '
-             '(incl. recorded engine traces replayed in the model by vm_compute) + naive filter/sort oracle on the engine')
+               '(checked on recorded engine traces by level D)']
+TECHNIQUE = ('Coq proofs over an executable model + bridging proofs to the functions translated from the source on every run '
+             '(lk2v) + differential correspondence at four levels (incl. recorded engine traces replayed by vm_compute) + naive '
+             'filter/sort oracle on the engine')
 LEVEL_TEXT = ('Kernel-checked theorems for all op sequences and keys: TwoWayMap forward/backward maps stay mutually '
               'inverse for every bin-kind pair (also after failing strict inserts and unhashable values); after any '
               'history in which every changed row was update_record\'ed the sorted lookup equals sort(spec, rows whose '
               'key set contains the key) for Simple and Contains mappings; cached sorted versions are valid; '
-              'make_sort_spec facts; SortKey is a strict total order on comparable values; lookupOne = head.')
-LEVEL_NOTE = ('Trusted: Coq kernel; the hand-written model (validated differentially on every run against the real '
-              'TwoWayMap, lookup mappings, SortKey, make_sort_spec and recorded engine traces); key type conversion and '
-              'rich values come from the implementation.')
+              'make_sort_spec facts; SortKey is a strict total order on comparable values; lookupOne = head. The model '
+              'functions for make_sort_spec, the bin classes, TwoWayMap, the lookup mappings and the sorted-versions logic '
+              'are proved equal to the code translated from the source on every run.')
+LEVEL_NOTE = ('Trusted: Coq kernel; the lk2v translator and the runtime primitives of LookupRt.v; the hand-written parts '
+              '(get_new_keys_iter, SortKey.__lt__, ==/hash of values) validated differentially on every run; key type '
+              'conversion and rich values come from the implementation.')
 
 UNSUPPORTED = 'unsupported'
+
+
+def regenerate(ctx):
+  """coq/gen/Lookup_gen.v: make_sort_spec, TwoWayMap methods, lookup mapping methods and the sorted-versions logic,
+  translated from the sources of the tree being checked (fail closed)."""
+  try:
+    text = lk2v.generate(core.GRIST)
+  except lk2v.Untranslatable as e:
+    raise core.TieBroken('lookup code is outside the translated subset: %s' % e)
+  core.write_if_changed(os.path.join(core.COQ, 'gen', 'Lookup_gen.v'), text)
 
 
 class Unsupported(Exception):
@@ -155,7 +187,7 @@ Fixpoint leqb {A} (eqb : A -> A -> bool) (l m : list A) : bool :=
   match l, m with [], [] => true | x :: l', y :: m' => eqb x y && leqb eqb l' m' | _, _ => false end.
 Definition sameset {A} (eqb : A -> A -> bool) (l m : list A) : bool :=
   Nat.eqb (List.length l) (List.length m) && forallb (fun x => memb eqb x m) l && forallb (fun x => memb eqb x l) m.
-Definition exn_eqb (a b : exn) := match a, b with TypeErr, TypeErr => true | ValueErr, ValueErr => true | _, _ => false end.
+Definition exn_eqb (a b : exn) := match a, b with TypeErr, TypeErr => true | ValueErr, ValueErr => true | OtherErr, OtherErr => true | _, _ => false end.
 Definition out_eqb (a b : outcome) := match a, b with Done, Done => true | Raise x, Raise y => exn_eqb x y | _, _ => false end.
 Definition ordered (k : kind) := match k with KSet | KLookupSet => false | _ => true end.
 Definition bin_same {A} (eqb : A -> A -> bool) (kd : kind) (a b : list A) :=
@@ -229,13 +261,151 @@ Definition cell_check (c : cell_case) : bool :=
              end in
   lres_eqb (if one then match got with LRows l => LRows [get_one l] | e => e end else got) expected.
 '''
+GEN_DEFS = r'''
+Require Import Grist.Lib.LkMonad Grist.Model.LookupRt GristGen.Lookup_gen.
+(* the same cases through the functions TRANSLATED from the source (validates harness/lk2v.py) *)
+Definition ss_check_gen (c : ss_case) : bool :=
+  let '(ob, sb, ms, r) := c in
+  opt_spec_eqb (match gen_make_sort_spec ob sb ms tt with Ok s _ => Some s | Exc _ _ => None end) r.
+Definition gen_step {L R} leq req lhash rhash lfmt rfmt lk rk (t : twm L R) (o : twop L R) : twm L R * outcome :=
+  let r := match o with
+           | TInsert l r => gen_tw_insert leq req lhash rhash lfmt rfmt lk rk l r t
+           | TRemove l r => gen_tw_remove leq req lhash rhash lfmt rfmt lk rk l r t
+           | TRemoveLeft l => gen_tw_remove_left leq req lhash rhash lfmt rfmt lk rk l t
+           | TRemoveRight r => gen_tw_remove_right leq req lhash rhash lfmt rfmt lk rk r t
+           | TClear => gen_tw_clear leq req lhash rhash lfmt rfmt lk rk t
+           end in
+  match r with Ok _ t' => (t', Done) | Exc e t' => (t', Raise e) end.
+Fixpoint gen_run {L R} leq req lhash rhash lfmt rfmt lk rk (t : twm L R) (ops : list (twop L R)) : twm L R * list outcome :=
+  match ops with
+  | [] => (t, [])
+  | o :: ops' => let '(t1, r) := gen_step leq req lhash rhash lfmt rfmt lk rk t o in
+                 let '(t2, rs) := gen_run leq req lhash rhash lfmt rfmt lk rk t1 ops' in (t2, r :: rs)
+  end.
+Definition tw_check_gen (c : tw_case) : bool :=
+  let '(lk, rk, ops, outs, fd, bd) := c in
+  let '(t, res) := gen_run val_eqb val_eqb hashable hashable val_fmt_fails val_fmt_fails lk rk (mkTwm [] []) ops in
+  leqb out_eqb res outs && dict_same val_eqb val_eqb rk (fwd t) fd && dict_same val_eqb val_eqb lk (bwd t) bd.
+Inductive binop := BAdd (k v : val) | BRem (k v : val) | BPop (k : val).
+Inductive bout := OAdd (r a : option val) | OUnit | OList (l : list val) | OExc (e : exn).
+Definition oval_eqb (a b : option val) := match a, b with Some x, Some y => val_eqb x y | None, None => true | _, _ => false end.
+Definition bout_eqb (kd : kind) (a b : bout) :=
+  match a, b with
+  | OAdd r1 a1, OAdd r2 a2 => oval_eqb r1 r2 && oval_eqb a1 a2
+  | OUnit, OUnit => true
+  | OList l1, OList l2 => bin_same val_eqb kd l1 l2
+  | OExc e1, OExc e2 => exn_eqb e1 e2
+  | _, _ => false end.
+Definition bin_step_model (kd : kind) (m : dict val (bin val)) (o : binop) : dict val (bin val) * bout :=
+  match o with
+  | BAdd k v => match add_item val_eqb val_eqb hashable hashable val_fmt_fails kd m k v with
+                | AOk m' r a => (m', OAdd r a) | ARaise e => (m, OExc e) end
+  | BRem k v => match remove_item val_eqb val_eqb hashable hashable kd m k v with Some m' => (m', OUnit) | None => (m, OExc TypeErr) end
+  | BPop k => match remove_key val_eqb hashable kd m k with Some (m', l) => (m', OList l) | None => (m, OExc TypeErr) end
+  end.
+Definition bin_step_gen (kd : kind) (m : dict val (bin val)) (o : binop) : dict val (bin val) * bout :=
+  match o with
+  | BAdd k v => match gen_bin_add_item val_eqb val_eqb hashable hashable val_fmt_fails kd k v m with
+                | Ok (r, a) m' => (m', OAdd r a) | Exc e m' => (m', OExc e) end
+  | BRem k v => match gen_bin_remove_item val_eqb val_eqb hashable hashable val_fmt_fails kd k v m with
+                | Ok _ m' => (m', OUnit) | Exc e m' => (m', OExc e) end
+  | BPop k => match gen_bin_remove_key val_eqb val_eqb hashable hashable val_fmt_fails kd k m with
+              | Ok l m' => (m', OList l) | Exc e m' => (m', OExc e) end
+  end.
+Fixpoint bin_run (step : dict val (bin val) -> binop -> dict val (bin val) * bout) (m : dict val (bin val)) (ops : list binop) :=
+  match ops with
+  | [] => (m, [])
+  | o :: ops' => let '(m1, x) := step m o in let '(m2, xs) := bin_run step m1 ops' in (m2, x :: xs)
+  end.
+Definition bin_case := (kind * list binop * list bout * list (val * list val))%type.
+Definition bin_check (c : bin_case) : bool :=
+  let '(kd, ops, outs, dump) := c in
+  let '(m1, o1) := bin_run (bin_step_model kd) [] ops in
+  let '(m2, o2) := bin_run (bin_step_gen kd) [] ops in
+  leqb (bout_eqb kd) o1 outs && dict_same val_eqb val_eqb kd m1 dump &&
+  leqb (bout_eqb kd) o2 outs && dict_same val_eqb val_eqb kd m2 dump.
+Definition somes {A} (l : list (option A)) : list A := flat_map (fun x => match x with Some a => [a] | None => [] end) l.
+Definition op_obs_gen (cols : list colspec) (m : lmap) (o : op) : lmap * obs :=
+  match o with
+  | OUpdate r cells =>
+      match (if uses_contains cols then gen_contains_update_record cols r cells m else gen_simple_update_record cols r cells m) with
+      | Ok ks m' => (m', ObsKeys ks) | Exc _ m' => (m', ObsErr) end
+  | ORemove r =>
+      if uses_contains cols then
+        match gen_contains_remove_row_id r m with Ok ks m' => (m', ObsKeys ks) | Exc _ m' => (m', ObsErr) end
+      else match gen_simple_remove_row_id r m with Ok ks m' => (m', ObsKeys (somes ks)) | Exc _ m' => (m', ObsErr) end
+  | OReset cells s =>
+      match gen_reset_sorted_versions cols 0 cells s m with Ok ks m' => (m', ObsKeys ks) | Exc _ m' => (m', ObsErr) end
+  | OLookup k s t =>
+      match gen_do_lookup_with_sort t k s m with Ok (l, _) m' => (m', ObsRes (LRows l)) | Exc _ m' => (m', ObsRes LError) end
+  end.
+Fixpoint run_obs_gen (cols : list colspec) (m : lmap) (ops : list op) : lmap * list obs :=
+  match ops with
+  | [] => (m, [])
+  | o :: ops' => let '(m1, x) := op_obs_gen cols m o in let '(m2, xs) := run_obs_gen cols m1 ops' in (m2, x :: xs)
+  end.
+Definition lm_check_gen (c : lm_case) : bool :=
+  let '(cols, ops, expected, fd, bd) := c in
+  let '(m, got) := run_obs_gen cols lm_empty ops in
+  leqb obs_eqb got expected &&
+  dict_same Z.eqb vals_eqb (right_kind cols) (fwd m) fd && bwd_same (bwd m) bd.
+Definition is_res (o : obs) := match o with ObsRes _ => true | _ => false end.
+Definition tr_check_gen (c : lm_case * bool) : bool :=
+  let '((cols, ops, expected, fd, bd), live) := c in
+  let '(m, got) := run_obs_gen cols lm_empty ops in
+  leqb obs_eqb (filter is_res got) (filter is_res expected) &&
+  (negb live || (dict_same Z.eqb vals_eqb (right_kind cols) (fwd m) fd && bwd_same (bwd m) bd)).
+'''
 IMPORTS = []
 
 
-def run_cases(ctx, name, check, lits, shard):
-  # the cases files open Z_scope, so the %Z annotations of the literal helpers are dropped (3x faster to parse)
-  return ctx.run_cases(name, IMPORTS, check, [l.replace('%Z', '') for l in lits], shard=shard,
-                       extra_defs=EXTRA_DEFS + TRACE_DEFS)
+BATCH_DEFS = r'''
+Inductive anycase := CS (c : ss_case) | CT (c : tw_case) | CM (c : lm_case) | CR (c : lm_case * bool) | CC (c : cell_case) | CB (c : bin_case).
+Definition any_check (c : anycase) : bool :=
+  match c with
+  | CS c => ss_check c && ss_check_gen c
+  | CT c => tw_check c && tw_check_gen c
+  | CM c => lm_check c && lm_check_gen c
+  | CR c => tr_check2 c && tr_check_gen c
+  | CC c => cell_check c
+  | CB c => bin_check c
+  end.
+'''
+WRAP = {'sortspec': 'CS', 'twoway': 'CT', 'mapping': 'CM', 'trace': 'CR', 'cells': 'CC', 'bins': 'CB'}
+
+
+def queue_cases(ctx, name, lits, on_fail):
+  """on_fail(i) is called for every failing case index i of this group."""
+  q = ctx.__dict__.setdefault('_c13_queue', [])
+  for i, l in enumerate(lits):
+    q.append(('(%s %s)' % (WRAP[name], l.replace('%Z', '')), on_fail, i))
+
+
+def flush_cases(ctx):
+  q = ctx.__dict__.pop('_c13_queue', [])
+  if not q:
+    return
+  # balance the shards: big (trace) cases are spread round-robin
+  order = sorted(range(len(q)), key=lambda i: -len(q[i][0]))
+  nshard = 8 if len(q) <= 2400 else (len(q) + 299) // 300
+  shards = [order[k::nshard] for k in range(nshard)]
+  flat = [i for sh in shards for i in sh]
+  size = max(len(sh) for sh in shards)
+  # run_cases cuts consecutive slices of `size`: pad the shorter shards with a trivially true case
+  lits, index = [], []
+  for sh in shards:
+    for i in sh:
+      lits.append(q[i][0])
+      index.append(i)
+    for _ in range(size - len(sh)):
+      lits.append('(CS (SNone, SNone, false, Some []))')
+      index.append(None)
+  bad = ctx.run_cases('all', IMPORTS, 'any_check', lits, shard=size, extra_defs=EXTRA_DEFS + TRACE_DEFS + GEN_DEFS + BATCH_DEFS)
+  for b in bad:
+    i = index[b]
+    if i is None:
+      raise core.TieBroken('the padding case fails: the check functions themselves are broken')
+    q[i][1](q[i][2])
 
 
 # ---------------------------------------------------------------------------------------------
@@ -255,9 +425,9 @@ def sortspec_cases(ctx):
   im = _impl()
   cols = ['id', 'A', '-A', 'B', '-B', 'manualSort', '-manualSort', '-id', '']
   obs = [None, 5, 0, ['A'], [], 1.5] + cols + [()]
-  for n in ((1, 2, 3) if ctx.tier == 'thorough' else (1, 2)):
-    obs.extend(itertools.product(['id', 'A', '-B', 'manualSort', '-id'], repeat=n))
-  sbs = [None, '', 'A', '-A', 'id', 'manualSort', ('A',), (), 5, 0, ['A'], []]
+  for n in ((1, 2, 3) if ctx.tier == 'thorough' else (2,)):
+    obs.extend(itertools.product(['id', 'A', '-B', 'manualSort', '-id'] if ctx.tier == 'thorough' else ['id', 'A', 'manualSort'], repeat=n))
+  sbs = [None, '', 'A', '-A', 'id', 'manualSort', ('A',), (), 5, 0, ['A'], []] if ctx.tier == 'thorough' else [None, '', '-A', ('A',), 5, 0]
   out = []
   for ob in obs:
     for sb in sbs:
@@ -277,9 +447,8 @@ def correspond_sortspec(ctx):
   cs = sortspec_cases(ctx)
   for (case, _l) in cs:
     ctx.count(('ss',) + tuple(map(repr, case)), nontrivial=True, kind='A:make_sort_spec')
-  bad = run_cases(ctx, 'sortspec', 'ss_check', [l for _c, l in cs], 2000)
-  for i in bad[:5]:
-    ctx.broken('correspondence:make_sort_spec differs from the model', 'case %r' % (cs[i][0],))
+  queue_cases(ctx, 'sortspec', [l for _c, l in cs], lambda i: ctx.broken(
+    'correspondence:make_sort_spec differs from the model or from the translated function', 'case %r' % (cs[i][0],)))
 
 
 # ---------------------------------------------------------------------------------------------
@@ -364,7 +533,7 @@ def dump_lit(d):
 def correspond_twoway(ctx):
   im = _impl()
   cases, lits = [], []
-  per_pair = ctx.n(8, 300)
+  per_pair = ctx.n(4, 300)
   for (lk, lkc) in KINDS:
     for (rk, rkc) in KINDS:
       for i in range(per_pair):
@@ -407,12 +576,11 @@ def correspond_twoway(ctx):
     ctx.extra['exhaustive'] = True
     ctx.extra['exhaustive_space'] = ('TwoWayMap: all op sequences of length <= 2 over {1,2} x {"a", []} for all 25 bin-kind '
                                      'pairs, length 3 for the 5 pairs in use / strict')
-  bad = run_cases(ctx, 'twoway', 'tw_check', lits, 800)
-  for i in bad[:5]:
-    ctx.broken('correspondence:TwoWayMap differs from the model', 'case %r' % (cases[i],))
+  queue_cases(ctx, 'twoway', lits, lambda i: ctx.broken(
+    'correspondence:TwoWayMap differs from the model or from the translated function', 'case %r' % (cases[i],)))
   # consistency oracle on the implementation (the property's own statement for this mechanism)
   for (lk, _), (rk, _) in itertools.product(KINDS, KINDS):
-    for i in range(ctx.n(10, 200)):
+    for i in range(ctx.n(4, 200)):
       ops = gen_twops(ctx.rng, i % 2 == 1)
       _outs, fd, bd = run_twoway(im, lk, rk, ops)
       pairs_f = sorted(((repr(k), repr(v)) for k, vs in fd for v in vs))
@@ -421,6 +589,49 @@ def correspond_twoway(ctx):
         ctx.violation('twoway-inconsistent', 'TwoWayMap(left=%s, right=%s) forward and backward maps disagree' % (lk, rk),
                       {'level': 'twoway', 'left': str(lk), 'right': str(rk), 'ops': repr(ops),
                        'fwd': pairs_f, 'bwd': pairs_b})
+
+
+def correspond_bins(ctx):
+  """The bin objects of twowaymap._mapper_types against the model's add_item / remove_item / remove_key and against the
+  translated bin classes."""
+  im = _impl()
+  tw = im.twowaymap
+  lits, cases = [], []
+  vals = [0, 1, 1.0, 'a', (1, 2), None, 2]
+  for (k, kc) in KINDS:
+    b = tw._mapper_types[tw.LookupSet if k == 'LookupSet' else k]
+    for i in range(ctx.n(6, 400)):
+      mapping, ops, outs = {}, [], []
+      ks, vs = ctx.rng.sample(vals, 2), ctx.rng.sample(vals, 3)
+      for _ in range(ctx.rng.choice([1, 2, 4, 7])):
+        key, v = ctx.rng.choice(ks), ctx.rng.choice(vs)
+        if ctx.rng.random() < 0.12:
+          key = [1]
+        if ctx.rng.random() < 0.12:
+          v = [2]
+        x = ctx.rng.random()
+        try:
+          if x < 0.55:
+            ops.append('(BAdd %s %s)' % (vlit(key), vlit(v)))
+            r, a = b.add_item(mapping, key, v)
+            outs.append('(OAdd %s %s)' % tuple('None' if y is tw._NIL else '(Some %s)' % vlit(y) for y in (r, a)))
+          elif x < 0.85:
+            ops.append('(BRem %s %s)' % (vlit(key), vlit(v)))
+            b.remove_item(mapping, key, v)
+            outs.append('OUnit')
+          else:
+            ops.append('(BPop %s)' % vlit(key))
+            outs.append('(OList %s)' % vlist(list(b.remove_key(mapping, key))))
+        except TypeError:
+          outs.append('(OExc TypeErr)')
+        except ValueError:
+          outs.append('(OExc ValueErr)')
+      dump = [(kk, [vv] if k in ('single', 'strict') else list(vv)) for kk, vv in mapping.items()]
+      cases.append((str(k), ops))
+      lits.append('(%s, %s, %s, %s)' % (kc, core.coq_list(ops), core.coq_list(outs), dump_lit(dump)))
+      ctx.count(('bin', str(k), tuple(ops)), nontrivial=bool(mapping) or any('OExc' in o for o in outs), kind='B:bin objects')
+  queue_cases(ctx, 'bins', lits, lambda i: ctx.broken(
+    'correspondence:a bin class differs from the model or from the translated class', 'case %r' % (cases[i],)))
 
 
 def twoway_same_pairs(fd, bd):
@@ -624,7 +835,7 @@ def gen_mapping_case(rng, im):
 def correspond_mappings(ctx):
   im = _impl()
   cases, lits = [], []
-  for _ in range(ctx.n(160, 4000)):
+  for _ in range(ctx.n(100, 4000)):
     try:
       case, lit, nontrivial, contains = gen_mapping_case(ctx.rng, im)
     except Unsupported as e:
@@ -634,9 +845,8 @@ def correspond_mappings(ctx):
     lits.append(lit)
     ctx.count(('lm', case['cols'], case['ops']), nontrivial=nontrivial,
               kind='C:%s mapping%s' % ('contains' if contains else 'simple', ', engine order' if case['discipline'] else ''))
-  bad = run_cases(ctx, 'mapping', 'lm_check', lits, 150)
-  for i in bad[:5]:
-    ctx.broken('correspondence:lookup mapping / sorted versions differ from the model', 'case %r' % (cases[i],))
+  queue_cases(ctx, 'mapping', lits, lambda i: ctx.broken(
+    'correspondence:lookup mapping / sorted versions differ from the model or from the translated functions', 'case %r' % (cases[i],)))
 
 
 # ---------------------------------------------------------------------------------------------
@@ -1221,12 +1431,12 @@ def correspond_engine(ctx):
   im = _impl()
   tr_lits, tr_info, cell_lits, cell_info = [], [], [], []
   ctx._c13_failures = []
-  n_docs = ctx.n(10, 250)
+  n_docs = ctx.n(6, 250)
   for k in range(n_docs):
     sd = engine_seed(ctx, k)
     rng = random.Random(sd)
     spec = gen_doc_spec(rng)
-    e, applied, rec, failures, internal, parsed = run_history(im, rng, spec, n_bundles=ctx.n(22, 30))
+    e, applied, rec, failures, internal, parsed = run_history(im, rng, spec, n_bundles=ctx.n(20, 30))
     wit = {'level': 'engine', 'spec': spec, 'bundles': jsonable(applied)}
     for (step, what, tb) in internal:
       ctx.violation('internal-error', 'apply_user_actions raised %s at bundle %d' % (what, step), wit)
@@ -1258,20 +1468,19 @@ def correspond_engine(ctx):
                           if nt and len(ctx.samples) < 4 else None))
     except Unsupported as ex:
       ctx.bump('D:cells skipped (%s)' % ex)
-  bad = run_cases(ctx, 'trace', 'tr_check2', tr_lits, 40)
-  for i in bad[:5]:
-    ctx.broken('correspondence:recorded engine trace replayed in the model gives different lookups or index',
-               'case %r' % (tr_info[i],))
-  bad = run_cases(ctx, 'cells', 'cell_check', cell_lits, 250)
-  for i in bad[:5]:
-    ctx.broken('correspondence:formula cell differs from the model specification spec_lookup', 'case %r' % (cell_info[i],))
+  queue_cases(ctx, 'trace', tr_lits, lambda i: ctx.broken(
+    'correspondence:recorded engine trace replayed in the model (or in the translated functions) gives different '
+    'lookups or index', 'case %r' % (tr_info[i],)))
+  queue_cases(ctx, 'cells', cell_lits, lambda i: ctx.broken(
+    'correspondence:formula cell differs from the model specification spec_lookup', 'case %r' % (cell_info[i],)))
 
 
 def correspond(ctx):
-  correspond_sortspec(ctx)
-  correspond_twoway(ctx)
-  correspond_mappings(ctx)
-  correspond_engine(ctx)
+  for f in (correspond_sortspec, correspond_bins, correspond_twoway, correspond_mappings, correspond_engine):
+    f(ctx)
+    ctx.log('%s: cases generated' % f.__name__)
+  flush_cases(ctx)
+  ctx.log('cases evaluated in Coq')
 
 
 # ---------------------------------------------------------------------------------------------
@@ -1280,7 +1489,7 @@ def correspond(ctx):
 def search(ctx):
   import random
   im = _impl()
-  n_docs = ctx.n(30, 1000)
+  n_docs = ctx.n(20, 1000)
   cells = [0, 0]
   def on_bundle(step, stats):
     for (i, key, exp, n_t) in stats:
@@ -1303,7 +1512,7 @@ def search(ctx):
   ctx.bump('search:formula cells compared with naive filter+sort', cells[0])
   ctx.bump('search:... of which matched >=1 and missed >=1 row', cells[1])
   # robustness stream: NaN / inf / unhashable / incomparable values; only "no internal error"
-  n_rob = ctx.n(15, 300)
+  n_rob = ctx.n(8, 300)
   errs = 0
   for k in range(n_rob):
     sd = engine_seed(ctx, 200000 + k)
